@@ -8,6 +8,7 @@ import (
 	"bytes"
 	"errors"
 	"fmt"
+	"math"
 	"math/rand"
 	"os"
 	"path"
@@ -616,11 +617,17 @@ func (m *mappedFile) cas32(off, old, new uint32) bool {
 //
 // See the documentation for [mappedFile] for a description of the counter record layout.
 func (m *mappedFile) entryAt(off uint32) (name []byte, next uint32, v *atomic.Uint64, ok bool) {
-	if off < m.hdrLen+hashOff || int64(off)+16 > int64(len(m.mapping.Data)) {
+	// Offsets are 32 bits wide: a record must end below 4 GiB even if the
+	// file is larger, so that the offset arithmetic below cannot wrap.
+	dataLen := int64(len(m.mapping.Data))
+	if dataLen > math.MaxUint32 {
+		dataLen = math.MaxUint32
+	}
+	if off < m.hdrLen+hashOff || int64(off)+16 > dataLen {
 		return nil, 0, nil, false
 	}
 	nameLen := m.load32(off+8) & 0x00ffffff
-	if nameLen == 0 || int64(off)+16+int64(nameLen) > int64(len(m.mapping.Data)) {
+	if nameLen == 0 || int64(off)+16+int64(nameLen) > dataLen {
 		return nil, 0, nil, false
 	}
 	name = m.mapping.Data[off+16 : off+16+nameLen]
